@@ -56,6 +56,21 @@ def node_calls(node):
 # ---------------------------------------------------------------------------
 # FitProperties.__setitem__: a changed setting drops the results
 
+def settings_gate(cfg, keyv):
+    """(test node, edge label) after which the key is known to be a
+    setting: `if key in FP_DEFAULT:` (true edge) or the guard clause
+    `if key not in FP_DEFAULT: ... return/raise` (false edge)"""
+    for n in cfg.nodes:
+        if n.kind != "test":
+            continue
+        t = norm(n.ast)
+        if t == f"{keyv} in FP_DEFAULT":
+            return n, "true"
+        if t in (f"{keyv} not in FP_DEFAULT", f"not {keyv} in FP_DEFAULT"):
+            return n, "false"
+    return None, None
+
+
 def setitem_invalidation(ctx, keys=None, why=""):
     """Every path of FitProperties.__setitem__ that stores a settings key
     passes `self.reset()` or carries an equality fact between stored and new
@@ -84,20 +99,33 @@ def setitem_invalidation(ctx, keys=None, why=""):
                  "changed setting keeps stale results and hash")
         return
     # region: true edge of `key in FP_DEFAULT`
-    gate = [n for n in cfg.nodes if n.kind == "test"
-            and norm(n.ast) == f"{keyv} in FP_DEFAULT"]
-    if not gate:
+    gate, gate_lab = settings_gate(cfg, keyv)
+    if gate is None:
         raise Undecided("cannot find the `key in FP_DEFAULT` test")
-    gate = gate[0]
     # equality-carrying edges
     eq_edges = set()
     notes = []
+    from .symres import Resolver as _Rs
+    Rs = _Rs(fn, keep={keyv, valv})
+
+    def rtext(a):
+        # the test with single-assigned locals (`current = self[key]`)
+        # replaced by their definitions
+        try:
+            return Rs.text(a.node)
+        except Exception:
+            return a.text
     for n in cfg.nodes:
         if n.kind == "test":
             for pol, lab in ((True, "true"), (False, "false")):
                 ats = atoms(n.ast, pol)
-                if any(a.pol and a.text in (f"self[{keyv}] == {valv}",
-                                            f"{valv} == self[{keyv}]")
+                if any((a.pol and (a.text in (
+                        f"self[{keyv}] == {valv}", f"{valv} == self[{keyv}]")
+                        or rtext(a) in (f"self[{keyv}] == {valv}",
+                                        f"{valv} == self[{keyv}]")))
+                       or ((not a.pol) and rtext(a) in (
+                           f"self[{keyv}] != {valv}",
+                           f"{valv} != self[{keyv}]"))
                        for a in ats):
                     eq_edges.add((n.id, lab))
         elif n.kind == "for":
@@ -115,6 +143,36 @@ def setitem_invalidation(ctx, keys=None, why=""):
                     ok, missing = _differ_call(a.node, fitm, valv)
                     if not ok and not missing:
                         ok, missing = _differ_any(a.node, valv)
+                    if not ok and not missing:
+                        # the same with locals resolved (`current =
+                        # self[key]` where key == 'params_initial' holds)
+                        try:
+                            from .astutil import clone as _clone
+                            n2_ = _clone(a.node)
+
+                            class _Sub(ast.NodeTransformer):
+                                def visit_Name(self, nd):
+                                    v_ = Rs.single(nd.id) if isinstance(
+                                        nd.ctx, ast.Load) else None
+                                    if v_ is not None and nd.id not in (
+                                            keyv, valv):
+                                        return _clone(v_)
+                                    return nd
+                            n2_ = ast.fix_missing_locations(
+                                _Sub().visit(n2_))
+                        except Exception:
+                            n2_ = None
+                        if n2_ is not None and any(
+                                c.pol and c.text == f"{keyv} == "
+                                "'params_initial'"
+                                for c in conditions_at(n.ast)):
+                            for x in ast.walk(n2_):
+                                if isinstance(x, ast.Subscript) and norm(
+                                        x) == f"self[{keyv}]":
+                                    x.slice = ast.Constant(
+                                        value="params_initial")
+                        if n2_ is not None and isinstance(n2_, ast.Call):
+                            ok, missing = _differ_any(n2_, valv)
                     if ok:
                         eq_edges.add((n.id, lab))
                     elif missing:
@@ -171,7 +229,7 @@ def setitem_invalidation(ctx, keys=None, why=""):
 
     bad_store = False
     for st in stores:
-        r = cfg.reach([gate.id], avoid=resets, via_first=("true",),
+        r = cfg.reach([gate.id], avoid=resets, via_first=(gate_lab,),
                       edge_ok=edge_ok)
         if st.id in r and dont_care(st.ast):
             ctx.ok(st.ast, f"store {norm(st.ast)[:40]} under the documented "
@@ -430,18 +488,14 @@ def setitem_copies_settings(fn) -> bool:
     cfg = CFG(fn)
     stores = [n for n in cfg.nodes if n.kind == "stmt" and any(
         is_super_setitem(c) for c in _node_calls(n))]
-    copies = []
+    all_copies = []
     for n in cfg.nodes:
         if n.kind == "stmt" and isinstance(n.ast, ast.Assign) and \
-                norm(n.ast.targets[0]) == valv and isinstance(
+                isinstance(n.ast.targets[0], ast.Name) and isinstance(
                     n.ast.value, ast.Call) and call_name(n.ast.value) in (
                         "copy.deepcopy", "deepcopy") and \
-                norm(n.ast.value.args[0]) == valv:
-            conds = conditions_at(n.ast)
-            if not conds or all(
-                    a.text == f"{keyv} in FP_DEFAULT" and a.pol
-                    for a in conds):
-                copies.append(n)
+                n.ast.value.args and norm(n.ast.value.args[0]) == valv:
+            all_copies.append(n)
     if not stores:
         return False
     for st in stores:
@@ -450,13 +504,29 @@ def setitem_copies_settings(fn) -> bool:
         if isinstance(arg, ast.Call) and call_name(arg) in (
                 "copy.deepcopy", "deepcopy"):
             continue
-        # every path gate(true) -> store passes a copy node
-        gate = [n for n in cfg.nodes if n.kind == "test"
-                and norm(n.ast) == f"{keyv} in FP_DEFAULT"]
-        if not gate or not copies:
+        if not isinstance(arg, ast.Name):
             return False
-        r = cfg.reach([gate[0].id], avoid={c.id for c in copies},
-                      via_first=("true",), skip_labels=("exc",))
+        # the copies that bind the stored name (a path from the gate to the
+        # store that passes none of them stores the caller's object)
+        copies = [n for n in all_copies
+                  if n.ast.targets[0].id == arg.id]
+        if arg.id != valv and any(
+                isinstance(n.ast, ast.Assign) and any(
+                    norm(t) == arg.id for t in n.ast.targets)
+                and n not in copies for n in cfg.nodes
+                if n.kind == "stmt"):
+            return False
+        # every path gate(true) -> store passes a copy node
+        gate0, lab0 = settings_gate(cfg, keyv)
+        if gate0 is None:
+            return False
+        r0 = cfg.reach([gate0.id], via_first=(lab0,), skip_labels=("exc",))
+        if st.id not in r0:
+            continue        # not a store of a settings key
+        if not copies:
+            return False
+        r = cfg.reach([gate0.id], avoid={c.id for c in copies},
+                      via_first=(lab0,), skip_labels=("exc",))
         if st.id in r:
             # the copy may sit behind a second `if key in FP_DEFAULT`
             ok = False
